@@ -63,7 +63,7 @@ package local
 //@   modifies heap(alloc), heap(map(string, any)), heap(elems(any)), ghost obs.stat_err, ghost obs.stat_path, ghost obs.exists_calls, ghost obs.exists, ghost obs.exists_path,
 //@            ghost fs.seq, ghost fs.temps, ghost fs.renames, ghost fs.last_rename_from, ghost fs.last_rename_to, ghost fs.removes, ghost fs.last_removed, ghost fs.remove_seq, ghost eff.fs,
 //@            ghost fw.seq, ghost fw.writes, ghost fw.write_seq, ghost fw.last_file, ghost fw.last_data, ghost fw.write_err,
-//@            ghost env.key, ghost env.val, ghost obs.validate_err
+//@            ghost env.key, ghost env.val, ghost obs.parsed, ghost obs.validate_err
 //@   assert before writeFileAtomic [C18 only_a_valid_definition_is_saved] obs.validate_err == nil && arg1 == spec
 //@   assert before writeFileAtomic [C18 only_an_existing_definition_is_saved_over] obs.exists && obs.exists_path == arg0 && arg0 == ite(contains(name, "/"), name, dag_location(d.dir, name))
 //@   ensures [C18 rejected_save_changes_nothing] obs.validate_err != nil ==> (err != nil && fs.seq == old(fs.seq))
@@ -78,10 +78,10 @@ package local
 // Listing / display / lookup never evaluate a definition.
 //@ fn (*dagStoreImpl).GetMetadata$1() (dg, err)
 //@   props C19
-//@   modifies heap(alloc), heap(map(string, any)), heap(elems(any)), ghost obs.meta_calls, ghost obs.meta_err, ghost obs.meta_dag, ghost env.key, ghost env.val,
+//@   modifies heap(alloc), heap(map(string, any)), heap(elems(any)), ghost obs.meta_calls, ghost obs.meta_err, ghost obs.meta_dag, ghost env.key, ghost env.val, ghost obs.parsed,
 //@            ghost obs.exists_calls, ghost obs.exists, ghost obs.exists_path, ghost obs.stat_err, ghost obs.stat_path
 //@   ensures [C19 cached_listing_loader_has_no_side_effects] eff.exec == old(eff.exec) && eff.env == old(eff.env)
 //@ fn (*dagStoreImpl).GetDetails(d, name) (dg, err)
 //@   props C19
-//@   modifies heap(alloc), heap(map(string, any)), heap(elems(any)), ghost env.key, ghost env.val, ghost obs.exists_calls, ghost obs.exists, ghost obs.exists_path, ghost obs.stat_err, ghost obs.stat_path
+//@   modifies heap(alloc), heap(map(string, any)), heap(elems(any)), ghost env.key, ghost env.val, ghost obs.parsed, ghost obs.exists_calls, ghost obs.exists, ghost obs.exists_path, ghost obs.stat_err, ghost obs.stat_path
 //@   ensures [C19 display_has_no_side_effects] eff.exec == old(eff.exec) && eff.env == old(eff.env)
